@@ -30,6 +30,7 @@ package main
 // constructs back on, to validate a repair.
 
 import (
+	"math"
 	"fmt"
 	"os"
 	"strings"
@@ -688,11 +689,235 @@ func (g *c14Gen) stmt() {
 		g.arrayStmt()
 	case k < 35:
 		g.lambdaStmt()
+	case k < 38:
+		g.shadowStmt()
 	default:
 		v := g.pickVar("int", true)
 		if v != nil {
 			g.emitf("%s = %s", v.name, g.genIntFit(3))
 		}
+	}
+}
+
+// shadowStmt: block scoping of names, on purpose. A name of an enclosing scope (parameter, local, package-level
+// variable) is declared again with := inside a switch clause (any position, the default clause anywhere), a body
+// of an if / else-if chain, as the variable of a for statement, in a bare block or inside a function literal,
+// with the same or with another type. Clauses and bodies that come LATER in the text, the statements after the
+// construct and the next iterations of the surrounding loop use the name meaning the outer variable: reads, and
+// writes that must survive. (A compiler that keeps one name table for all the clauses of a switch resolves those
+// later uses to the private slot of the earlier clause: Null, or a stale value of the previous iteration.)
+func (g *c14Gen) shadowStmt() {
+	if len(g.scopes) > 6 {
+		return
+	}
+	typ := pick(g.r, []string{"int", "int", "int", "string", "bool"})
+	xs := g.vars(typ, false)
+	if len(xs) == 0 {
+		typ = "int"
+		xs = g.vars(typ, false)
+	}
+	if len(xs) == 0 {
+		return
+	}
+	x := xs[g.r.intn(len(xs))]
+	if x.buf { // a concatenated string would make len/== meet finding F152
+		return
+	}
+	var acc *c14Var
+	for _, a := range g.vars("int", true) {
+		if a != x && !a.glob {
+			acc = a
+		}
+	}
+	if acc == nil {
+		acc = g.declare("int", false, c14M)
+		g.emitf("%s := %s", acc.name, g.genIntFit(1))
+	}
+	g.tag("shadow")
+	if x.glob {
+		g.tag("shadow-global")
+	}
+	X, A := x.name, acc.name
+	k := func(n int) int { return 1 + g.r.intn(n) }
+	// reading the variable whose type is typ
+	read := func() {
+		switch typ {
+		case "int":
+			g.emitf("%s = (%s*3 + %s%%1000) %% %d", A, A, X, c14M)
+		case "string":
+			g.emitf("%s = (%s*3 + len(%s)) %% %d", A, A, X, c14M)
+			g.emitf("if %s == %q {", X, pick(g.r, []string{"", "a", "neo", "zz9"}))
+			g.emitf("\t%s++", A)
+			g.emitf("}")
+		default:
+			g.emitf("if %s {", X)
+			g.emitf("\t%s = (%s + %d) %% %d", A, A, k(90), c14M)
+			g.emitf("}")
+		}
+	}
+	// what a later sibling does: read the outer variable or write it
+	outer := func(i string) {
+		if x.ro || (x.glob && g.noGlob) || g.r.chance(45) {
+			read()
+			return
+		}
+		g.tag("shadow-outer-write")
+		switch typ {
+		case "int":
+			g.emitf("%s = (%s%%1000 + %s + %d) %% %d", X, X, i, k(30), c14M)
+		case "string":
+			g.emitf("%s = %q", X, pick(g.r, []string{"", "a", "neo", "zz9", "q7"}))
+		default:
+			g.emitf("%s = !%s", X, X)
+		}
+	}
+	// the inner declaration of the same name (same or another type), used at once
+	inner := func(i string) {
+		ityp := typ
+		if g.r.chance(40) {
+			ityp = pick(g.r, []string{"int", "string", "bool"})
+		}
+		if ityp != typ {
+			g.tag("shadow-other-type")
+		}
+		switch ityp {
+		case "int":
+			g.emitf("%s := %s*%d + %d", X, i, k(6), k(90))
+			g.emitf("%s = (%s*3 + %s) %% %d", A, A, X, c14M)
+		case "string":
+			g.emitf("%s := %q", X, pick(g.r, []string{"s", "ab", "xyz", ""}))
+			g.emitf("%s = (%s*3 + len(%s) + %d) %% %d", A, A, X, k(9), c14M)
+		default:
+			g.emitf("%s := %s%%2 == %d", X, i, g.r.intn(2))
+			g.emitf("if %s {", X)
+			g.emitf("\t%s = (%s + %d) %% %d", A, A, k(90), c14M)
+			g.emitf("}")
+		}
+	}
+	n := 3 + g.r.intn(3)
+	g.nvar++
+	i := fmt.Sprintf("i%d", g.nvar)
+	shape := g.r.intn(5)
+	if shape == 4 && g.inInit {
+		shape = 0
+	}
+	switch shape {
+	case 0, 1: // clauses of a switch, inside a loop
+		g.tag("shadow-switch")
+		g.emitf("for %s := 0; %s < %d; %s++ {", i, i, n, i)
+		g.indent++
+		m := 3 + g.r.intn(2)
+		g.emitf("switch (%s + %d) %% %d {", i, g.r.intn(3), m)
+		pos := g.r.intn(2)
+		defAt := -1
+		if g.r.chance(70) {
+			defAt = g.r.intn(4)
+			if defAt < 3 {
+				g.tag("shadow-switch-early-default")
+			}
+		}
+		body := func(c int) {
+			g.indent++
+			switch {
+			case c == pos:
+				inner(i)
+			case c < pos:
+				read()
+			default:
+				outer(i)
+			}
+			g.indent--
+		}
+		for c := 0; c <= 3; c++ {
+			if c == defAt {
+				g.emitf("default:")
+				g.indent++
+				if c <= pos {
+					read()
+				} else {
+					outer(i)
+				}
+				g.emitf("%s = (%s + 7) %% %d", A, A, c14M)
+				g.indent--
+			}
+			if c == 3 {
+				break
+			}
+			if c == 1 && g.r.bool() {
+				g.emitf("case 1, %d:", 3+g.r.intn(3))
+			} else {
+				g.emitf("case %d:", c)
+			}
+			body(c)
+		}
+		g.emitf("}")
+		read()
+		g.indent--
+		g.emitf("}")
+	case 2: // bodies of an if / else-if / else chain, inside a loop
+		g.tag("shadow-if")
+		g.emitf("for %s := 0; %s < %d; %s++ {", i, i, n, i)
+		g.indent++
+		g.emitf("if %s%%3 == %d {", i, g.r.intn(3))
+		g.indent++
+		inner(i)
+		g.indent--
+		g.emitf("} else if %s%%2 == %d {", i, g.r.intn(2))
+		g.indent++
+		outer(i)
+		g.indent--
+		g.emitf("} else {")
+		g.indent++
+		outer(i)
+		g.emitf("%s = (%s + 5) %% %d", A, A, c14M)
+		g.indent--
+		g.emitf("}")
+		read()
+		g.indent--
+		g.emitf("}")
+	case 3: // the variable of a for statement (its post statement means the loop variable), a block in its body
+		g.tag("shadow-for")
+		g.emitf("for %s := %d; %s < %d; %s += %d {", X, g.r.intn(3), X, n, X, 1+g.r.intn(2))
+		g.indent++
+		g.emitf("%s = (%s*3 + %s) %% %d", A, A, X, c14M)
+		g.emitf("{")
+		g.indent++
+		g.emitf("%s := %s*2 + %d", X, X, k(9))
+		g.emitf("%s = (%s*3 + %s) %% %d", A, A, X, c14M)
+		g.indent--
+		g.emitf("}")
+		g.emitf("%s = (%s*5 + %s) %% %d", A, A, X, c14M)
+		g.indent--
+		g.emitf("}")
+	default: // a function literal declares the name as its own local; a bare block does, too
+		g.tag("shadow-literal")
+		g.nvar++
+		fn := fmt.Sprintf("fn%d", g.nvar)
+		g.emitf("%s := func(q int) int {", fn)
+		g.indent++
+		g.emitf("%s := q*%d + %d", X, k(5), k(9))
+		g.emitf("{")
+		g.emitf("\t%s := %s + %d", X, X, k(9))
+		g.emitf("\tq += %s", X)
+		g.emitf("}")
+		g.emitf("return %s*2 + q", X)
+		g.indent--
+		g.emitf("}")
+		g.emitf("for %s := 0; %s < %d; %s++ {", i, i, n, i)
+		g.indent++
+		g.emitf("{")
+		g.indent++
+		inner(i)
+		g.indent--
+		g.emitf("}")
+		g.emitf("%s = (%s + %s(%s)) %% %d", A, A, fn, i, c14M)
+		outer(i)
+		g.indent--
+		g.emitf("}")
+	}
+	read()
+	if typ == "int" {
+		x.bound = math.Max(x.bound, c14M)
 	}
 }
 
@@ -1814,6 +2039,71 @@ func c14GenUnit(r *rng, pkg string, nEntry int, hist map[string]int) c14Unit {
 			g.emitf("")
 			entries = append(entries, c14Func{Name: name, Params: []string{"int", "bool"}, Ret: "int"})
 			continue
+		case i%9 == 5: // named results, parameters and package-level variables hidden by inner declarations
+			g.tag("shadow-entry")
+			gi := ""
+			for _, v := range g.globals {
+				if v.typ == "int" {
+					gi = v.name
+				}
+			}
+			c1, c2, c3 := 1+r.intn(9), 1+r.intn(9), r.intn(3)
+			g.emitf("func sh%d(p int, f bool) (res int, ok bool) {", i)
+			g.emitf("\tres = p %% 1000")
+			g.emitf("\tfor i := 0; i < %d; i++ {", 4+r.intn(3))
+			g.emitf("\t\tswitch (i + %d) %% 4 {", c3)
+			clauses := [][]string{
+				{"case 0:", // hides both results, and the parameter with another type
+					fmt.Sprintf("res := i*%d + %d", c1, c2), fmt.Sprintf("ok := res > %d", c2+2), "p := ok",
+					"if p {", "\tres++", "}", "_ = res"},
+				{"case 1:", fmt.Sprintf("res = (res*3 + p%%1000 + i) %% %d", c14M)},
+				{"case 2:", "ok = !ok", "if f {", "\tp = (p%1000 + res + 1) % 1000", "}"},
+				{"default:", fmt.Sprintf("res = (res + p%%7 + %d) %% %d", c1, c14M)},
+			}
+			if gi != "" {
+				clauses[0] = append(clauses[0], fmt.Sprintf("%s := %q", gi, pick(r, []string{"g", "gg", ""})), fmt.Sprintf("res += len(%s)", gi), "_ = res")
+				clauses[1] = append(clauses[1], fmt.Sprintf("res = (res + %s%%1000) %% %d", gi, c14M))
+				clauses[3] = append(clauses[3], fmt.Sprintf("%s = (%s%%1000 + i + 1) %% %d", gi, gi, c14M))
+			}
+			// the default clause anywhere; the declaring clause before the ones that mean the outer names
+			order := []int{0, 1, 2}
+			at := r.intn(4)
+			order = append(order[:at], append([]int{3}, order[at:]...)...)
+			for _, c := range order {
+				g.emitf("\t\t%s", clauses[c][0])
+				for _, l := range clauses[c][1:] {
+					g.emitf("\t\t\t%s", l)
+				}
+			}
+			g.emitf("\t\t}")
+			g.emitf("\t\tif i%%2 == 0 {")
+			g.emitf("\t\t\tres := res + %d", c2)
+			g.emitf("\t\t\tok = ok != (res%%2 == 0)")
+			g.emitf("\t\t} else if p%%3 == %d {", r.intn(3))
+			g.emitf("\t\t\tres = (res + 11) %% %d", c14M)
+			g.emitf("\t\t}")
+			g.emitf("\t}")
+			if r.bool() {
+				g.emitf("\treturn")
+			} else {
+				g.emitf("\treturn res, ok")
+			}
+			g.emitf("}")
+			g.emitf("")
+			g.emitf("func %s(a int, f bool) int {", name)
+			g.emitf("\tv, ok := sh%d(a%%100000, f)", i)
+			g.emitf("\tif ok {")
+			g.emitf("\t\tv += 500009")
+			g.emitf("\t}")
+			if gi != "" {
+				g.emitf("\treturn (v*31 + %s%%1000) %% %d", gi, c14M)
+			} else {
+				g.emitf("\treturn v %% %d", c14M)
+			}
+			g.emitf("}")
+			g.emitf("")
+			entries = append(entries, c14Func{Name: name, Params: []string{"int", "bool"}, Ret: "int"})
+			continue
 		case i%9 == 8: // defer entry
 			g.tag("defer-entry")
 			g.emitf("func %s(a int, f bool) int {", name)
@@ -1951,6 +2241,15 @@ func SumTo(n int) int {
 // c14Allow: development switch (environment variable C14_ALLOW, comma separated) that re-enables a construct
 // the generator leaves out because of a known finding; used to validate the repair of that finding.
 func c14Allow(feature string) bool {
+	for _, f := range strings.Split(os.Getenv("C14_DENY"), ",") {
+		if f == feature {
+			return false
+		}
+	}
+	// repaired in /repo (F142: default clause not last, F141: function values with several arguments): generated again
+	if feature == "earlydefault" || feature == "lambda2" {
+		return true
+	}
 	for _, f := range strings.Split(os.Getenv("C14_ALLOW"), ",") {
 		if f == feature {
 			return true
